@@ -106,6 +106,9 @@ class DLLSpec(Spec):
         if n + 2 <= self.maxsize:
             # the source iterable raises after k items: whatever was added, the list must stay consistent
             ops += [("extend_raise", 0), ("extend_raise", 1), ("extend_raise", 2), ("pre_extend_raise", 1)]
+        if n + 2 <= self.maxsize:
+            # the source is another DoublyLinkedList: its payloads are taken, its nodes stay its own
+            ops += [("extend_dll",), ("pre_extend_dll",)]
         if n >= 1:
             # the source iterable works on the list itself while it is consumed (a sequential interleaving)
             ops += [("extend_reentrant", min(n, 2))]
@@ -148,6 +151,31 @@ class DLLSpec(Spec):
                 exp = exp + [id(d) for d in data]
             if [id(x.data) for x in nodes] != exp:
                 raise Mismatch("forward-walk", "%s placed payloads wrongly" % kind)
+            model = nodes
+        elif kind in ("extend_dll", "pre_extend_dll"):
+            data = [self.payload(st), self.payload(st)]
+            src = DoublyLinkedList(data)
+            src_nodes = list(src.iter_nodes())
+            r = observe(l.extend if kind == "extend_dll" else l.pre_extend, src)
+            if r[0] != "ok":
+                raise Mismatch("raises", "%s(another DoublyLinkedList) -> %r" % (kind[:-4], r))
+            nodes = []
+            node = l.head
+            while node is not None and len(nodes) <= len(model) + 3:
+                nodes.append(node)
+                node = node.next_node
+            exp = [id(x.data) for x in model]
+            exp = ([id(d) for d in reversed(data)] + exp) if kind == "pre_extend_dll" else (exp + [id(d) for d in data])
+            if [id(x.data) for x in nodes] != exp:
+                raise Mismatch("forward-walk", "%s(another DoublyLinkedList) placed payloads wrongly" % kind[:-4])
+            if any(x is y for x in nodes for y in src_nodes):
+                raise Mismatch("shared-node", "%s(another DoublyLinkedList): a node of the source list is now a node of "
+                               "this list as well" % kind[:-4])
+            try:
+                walk_check(src, src_nodes)
+            except Mismatch as m:
+                raise Mismatch("source-disturbed", "%s(another DoublyLinkedList) changed the source list: %s: %s" % (
+                    kind[:-4], m.kind, m.detail))
             model = nodes
         elif kind in ("extend_raise", "pre_extend_raise"):
             data = [self.payload(st) for _ in range(op[1])]
